@@ -46,8 +46,24 @@ claim("C25", T + "must-hold lockset dataflow per function with caller-held summa
       "Decides that every map operation on a state/events map field shared between API readers and block execution holds the field's guard (found and repaired: swapPools, events store id tables), that no API-reachable path re-acquires a mutex block execution write-locks (found and repaired: GetLockStakeUntilBlock), that every acquisition is released on every normal return, that API code calls no mutator, that bulk loaders are called by the API only on private historic states, and that the node is wired through the serialising local ABCI client. Not decided: races on non-map fields, lock-order cycles, the order-book lists.",
       TRUST + "Guard table confirmed by reading; Tendermint's local client serialises ABCI calls.", "DESIGN.md §4 C25")
 
+claim("C05", T + "provenance of the account argument of every debit-like mutator; interprocedural gate facts per handler against a table of required ownership gates; gate inventory of the multisig arm of RunTx",
+      "Decides that every debit/withdrawal in live transaction code names tx.Sender() (RedeemCheck: the check's issuer), that no protocol code debits balances, that each object-editing handler is dominated by its owner/control/ticker-owner/order-owner/multisig gate comparing a state lookup keyed by the transaction's own data with tx.Sender(), and that multisig dispatch is dominated by membership, count, recovery, duplicate and threshold gates with weights taken from recovered signers; the signed hash covers all nine signed fields. Not decided: cryptography, fill/slash fairness.",
+      TRUST, "DESIGN.md §4 C05")
+
+claim("C18", T + "gate facts for jail/absent/byzantine paths, constant evaluation, call ordering by dominance, guard/marker rule (fields read by the skip gate ∩ fields written by the punishment) over transitive field-effect summaries",
+      "Decides that switching on is gated by the jail test and Punish jails for GetJailPeriod, that absent punish/switch-off are gated by `> 12` (of 24) and punish by non-grace, that byzantine punishment runs frozen-funds ≺ validator ≺ candidate behind the skip gates, and that the skip gate reads state the punishment writes (found and repaired: duplicate evidence in one block was punished twice). Not decided: the 5 % arithmetic.",
+      TRUST, "DESIGN.md §4 C18")
+
+claim("C21", T + "interprocedural gate facts at every value-moving effect of the live RedeemCheck handler, must-pass-through for UseCheck, marker rule on the used-check set, argument provenance of the transfer",
+      "Decides that every redemption effect is dominated by the chain-id, due-block, once-only, gas-coin, gas-price and lock-proof gates on the check decoded from data.RawCheck (the proof message binding tx.Sender()), that UseCheck runs on every accepted path and keys the set IsCheckUsed reads by check.Hash() (persisted), and that exactly check.Value of check.Coin moves from the issuer to tx.Sender() with the fee taken from the issuer in the check's gas coin. Not decided: signature soundness, RLP canonicity (C23).",
+      TRUST, "DESIGN.md §4 C21")
+
+claim("C22", T + "provenance of coin ids (GetNextCoinID → Create* → SetCoinsCount) with must-pass-through, who-may-call on creators and the counter, gate facts for ticker uniqueness/ownership and minting",
+      "Decides that every creating handler uses App().GetNextCoinID() as the new id and stores it back on every accepted path, that nothing else creates coins or moves the counter, that tickers are registered only after the uniqueness and allowed-symbol gates, that recreate/re-own/mint are owner-gated, that pool tokens have no ticker owner and MintToken rejects coins without symbol info, and that minting is bounded by mintability and max supply. Not decided: version numbering arithmetic.",
+      TRUST, "DESIGN.md §4 C22")
+
 PENDING = "check not built yet in this round; see DESIGN.md §4 for the planned static rule"
-for p in ["C01","C02","C05","C06","C07","C13","C14","C15","C17","C18","C19","C21","C22","C23","C24","C27","C28"]:
-    if p not in CLAIMS:
+for p in ["C%02d" % i for i in range(1, 30)]:
+    if p not in CLAIMS and p != "C12":
         NOT_APPLICABLE[p] = PENDING
 NOT_APPLICABLE["C12"] = "Bancor formula accuracy is a numeric error bound over big.Float Exp/Log for all supplies/reserves/ratios; no clause of it is visible in the shape of the code, and bounding floating-point error is outside static analysis as available here (DESIGN.md §5)."
